@@ -31,6 +31,34 @@ class Rec:
         self.items.append(("broken", text))
 
 
+class FilterRec:
+    """forwards only the obligations / findings of the sub-rules a property claims"""
+
+    def __init__(self, rec, allow):
+        self.rec = rec
+        self.allow = tuple(allow)
+
+    def _ok(self, rule):
+        return any(rule.endswith(a) or a in rule for a in self.allow)
+
+    def ob(self, rule, ok, sample=None):
+        if self._ok(rule):
+            self.rec.ob(rule, ok, sample)
+
+    def finding(self, rule, key, message, **detail):
+        if self._ok(rule):
+            self.rec.finding(rule, key, message, **detail)
+
+    def count(self, name, n=1):
+        self.rec.count(name, n)
+
+    def note(self, text):
+        self.rec.note(text)
+
+    def broken(self, text):
+        self.rec.broken(text)
+
+
 class TU:
     def __init__(self, pl, ak, meta, mod, tag):
         self.pl = pl
